@@ -49,6 +49,10 @@ func (p *SocketBabbleProxyServer) register(bindAddress string) error {
 
 	p.rpcServer = rpcServer
 
+	if sl, ok := simListen(bindAddress); ok {
+		p.netListener = &sl
+		return nil
+	}
 	l, err := net.Listen("tcp", bindAddress)
 	if err != nil {
 		return err
